@@ -4,6 +4,7 @@ import (
 	"bufio"
 	"encoding/json"
 	"fmt"
+	"github.com/XiXi-2024/xixi-kv/verifrt/iorec"
 	"os"
 	"os/exec"
 	"path/filepath"
@@ -631,6 +632,7 @@ func workerMain(c *Check, tier string) {
 			os.Exit(2)
 		}
 		res := &TaskResult{ID: id}
+		leaked0 := leakedMappings
 		workerBusy.Store(true)
 		func() {
 			defer func() {
@@ -641,6 +643,14 @@ func workerMain(c *Check, tier string) {
 			tasks[id].Fn(res)
 		}()
 		workerBusy.Store(false)
+		if leakedMappings > leaked0 {
+			res.count("mappings_left_behind_by_the_code_under_test", int64(leakedMappings-leaked0))
+		}
+		if iorec.EnvFailure != "" {
+			// a real call failed for lack of a machine resource: nothing this task observed is a verdict
+			res.Err = "environment failure (not a verdict on the code under test): " + iorec.EnvFailure
+			res.Violations = nil
+		}
 		js, _ := json.Marshal(res)
 		out.WriteString("RESULT ")
 		out.Write(js)
